@@ -45,7 +45,7 @@ CLAIMED = {
          'A task poll is atomic; peers never stall mid-request.'),
  'C11': ('fault_enumeration', 'srvsim', 'DESIGN.md §8 C11',
          'deterministic simulation with fault injection: open/close/abort histories with aborts at lifecycle steps (incl. reset in the middle of the upgrade handshake under a bounded stream buffer) against limits 0-3; one-sided slot model over stamped events; refill phase after every history',
-         'Seeded histories of {open WebSocket, HTTP call with handler latency, graceful close, abrupt reset, reset mid-handshake, refused upgrade} on Server::start (simulated listener) or TowerService per connection; an attempt admitted while the model has max sessions definitely open, or refused with 429 after everything earlier has definitely finished (stream gone and system idle since), is a violation; after every history max sessions must be admissible again and the (max+1)-th refused with 429; refused HTTP calls run no handler. Histories and schedules sampled; the refill phase is deterministic per history.',
+         'Seeded histories of {open WebSocket, HTTP call with handler latency, graceful close, abrupt reset, reset mid-handshake, refused upgrade} on Server::start (simulated listener) or TowerService per connection; an attempt admitted while the model has max sessions definitely open, or refused with 429 after everything earlier has definitely finished (stream gone and system idle since), is a violation; after every history max sessions must be admissible again and the (max+1)-th refused with 429; refused HTTP calls run no handler. In addition one abort (session reset / reset mid-handshake / HTTP client reset mid-call / refused upgrade) is inserted before every step of abort-free base histories (positions enumerated per base history); histories and schedules are sampled; the refill phase runs after every history. With pings on (hook H6) silent peers must be closed by the server and their slots freed.',
          'A task poll is atomic; slot model one-sided (documented in DESIGN.md).'),
  'C12': ('exploration', 'clisim', 'DESIGN.md §8 C12',
          'deterministic simulation: seeded scheduler; scripted peer / harness HTTP backend replying with permuted, short, duplicated, foreign and mixed batch replies; positional oracle shared by both clients',
